@@ -51,7 +51,7 @@ LEVEL_NOTE = ('Trusted: NumPy (long double), Hypothesis, vlib/ref/interp.py '
               'Python floats. Grid coordinates are taken from the library '
               'object (grids are C14\'s business).')
 DESIGN_REF = 'DESIGN.md section 5, C15'
-BUDGET = {'quick': 6000, 'thorough': 80000}
+BUDGET = {'quick': 12000, 'thorough': 120000}
 TOLERANCES = {
     'sampling': 'bitwise equal to point-by-point scalar evaluation (== on the '
                 'values, so -0.0 == 0.0)',
